@@ -364,6 +364,8 @@ def run_check(prop, tier):
                         done_scen += 1
                     else:
                         redo[it['index']] = it
+            if os.environ.get('VERIF_FIRST_VIOLATION') == '1' and any(results[i]['violations'] for i in idxs if i in results):
+                break           # used when a modified tree is evaluated (tools/seeded_eval.py): the first block with a violation settles it
     except (cf.TimeoutError, cf.process.BrokenProcessPool) as e:
         harness.append('HARNESS-ERROR pool failure: %r' % (e,))
         for p in list(getattr(pool, '_processes', {}).values()):
